@@ -14,10 +14,12 @@ vspec entries:
     @@ breakvalue <alias> <fn key> <'label> <type>     R2
     @@ dropcontinue <alias> <fn key> <#n|'label>       R3
     @@ labelblock <alias> <fn key> <'label>            R9
+    @@ closure <alias> <fn key> <param tokens..>        R10 (params:/ret:/spec:)
     @@ retoken <alias> <kind> <name>   (from:/to:/rule:/note: sections; tokens space separated)
     @@ in <alias|*> <kind> <name-glob>   (items: inserted at the start of the body)
     @@ fn <alias|*> <key-glob>           (tags:/ret:/attr:/spec:/body:)
     @@ loop <alias|*> <key-glob> <#n|'label>   (spec:/body:)
+    @@ hint <alias> <fn key> before|after let|call <name> [#n]   (body:)  proof block at a statement boundary
 """
 import fnmatch
 import json
@@ -97,6 +99,10 @@ class Unit:
                 alias, key, label = h[1], h[2], h[3]
                 rsx.r9_label_block(self.sources[alias], self.edits[alias], self._fn(alias, key), label)
                 e.used = True
+            elif h[0] == "closure":
+                alias, key = h[1], h[2]
+                rsx.annotate_closure(self.sources[alias], self.edits[alias], self._fn(alias, key), h[3:], e)
+                e.used = True
             elif h[0] == "retoken":
                 alias, kind, name = h[1], h[2], h[3]
                 it = self._find_item(alias, kind, name)
@@ -143,6 +149,11 @@ class Unit:
                         rsx.inject_fn(src, ed, fn, e)
                         meta["tags"] += re.findall(r"C\d+", e.get("tags"))
                         meta["contract"] = True
+                        e.used = True
+                    elif h[0] == "hint" and h[1] in ("*", alias) and fn.key == h[2]:
+                        # @@ hint <alias> <fn key> before|after let|call <name> [#n]
+                        n = int(h[6][1:]) if len(h) > 6 else 1
+                        rsx.inject_hint(src, ed, fn, h[3], h[4], h[5], n, e)
                         e.used = True
                     elif h[0] == "loop" and h[1] in ("*", alias) and fnmatch.fnmatchcase(fn.key, h[2]):
                         rsx.inject_loop(src, ed, fn, h[3], e)
